@@ -1,6 +1,7 @@
 (* C11 — property theorems only: each closed by [exact] of a lemma proved in Values/DepsProofs.v. *)
 From Coq Require Import List String Bool ZArith.
 From Helm Require Import Values.Tree Values.Schema Values.Scope Values.Deps Values.DepsProofs Values.ScopeProofs.
+From Helm Require Import Values.ScopeTree Values.ScopeTreeProofs Values.DepsTreeProofs Values.ImportProofs Values.SeenProofs.
 Import ListNotations.
 Local Open Scope string_scope.
 Local Open Scope Z_scope.
@@ -257,3 +258,278 @@ Example C11_enabled_example :
      end.
 Proof. exact enabled_example. Qed.
 Print Assumptions C11_enabled_example.
+
+(* ======================================================================================== *)
+(* Round 4: end-to-end statements over whole trees.                                          *)
+(* [values_seen compat tree user p] = ProcessDependencies (enable / alias / import-values), then
+   CoalesceValues (recursive, globals), then the scoping of recAllTpls along the path p (the
+   chart names below the root).  K-C11-1 (names with dots) is excluded by [path_ok].          *)
+(* ======================================================================================== *)
+
+(* What [values_seen] says is what engine.Render's renderable of every template of the chart at
+   path p holds ... *)
+Theorem C11_values_seen_rendered : forall compat t v p x c r d,
+  process_dependencies compat t v = Ok c -> CoalesceValues c v = Ok r ->
+  values_seen compat t v p = Some x -> chart_at c p = Some d ->
+  forall tpl, In tpl (ctemplates d) ->
+    In (dir_of (cname c) p ++ "/" ++ tpl, VMap x) (rec_all_tpls c true "" r).
+Proof. exact values_seen_rendered. Qed.
+Print Assumptions C11_values_seen_rendered.
+
+(* ... and every entry recAllTpls produces is of that kind: a template of a chart reached from
+   the root by names, with the values handed down that chain. *)
+Theorem C11_rendered_only_on_paths : forall c root pp pv path y,
+  In (path, y) (rec_all_tpls c root pp pv) ->
+  exists q e x t, on_path c (scoped_values root (cname c) pv) q e x /\ In t (ctemplates e)
+                  /\ path = dir_of (chart_full_path root pp (cname c)) q ++ "/" ++ t /\ y = VMap x.
+Proof. exact rendered_on_path. Qed.
+Print Assumptions C11_rendered_only_on_paths.
+
+(* The composition in closed form, at any depth: the .Values of the chart P at path p are P's own
+   [coalesce] (defaults and subtree of P) started from X, where [handed] computes X level by level:
+   the section under the next name out of (the chart's defaults coalesced under what was handed
+   to it), with that level's globals pushed in. *)
+Theorem C11_values_seen_closed : forall compat t v c p x,
+  process_dependencies compat t v = Ok c -> path_ok p c ->
+  values_seen compat t v p = Some x ->
+  exists P X, handed false c v p = Some (P, X) /\ coalesce false P X = Ok x.
+Proof. exact values_seen_closed. Qed.
+Print Assumptions C11_values_seen_closed.
+
+(* (a) Isolation at any depth.  Two runs whose processed trees and user values "differ only
+   outside the path" - [chart_agree eq eq p]: the defaults of the charts on the path agree in their
+   "global" table and, recursively, in the section under the next name, and the subtree at the end
+   of the path is the same; [agree eq p]: the same for the user's values - show the chart at p the
+   same .Values.  Siblings at every level (their defaults, their subtrees, their sections in
+   anybody's values) and every other key of every ancestor are unconstrained. *)
+Theorem C11_values_seen_isolated : forall compat t t' v v' c c' p x x',
+  process_dependencies compat t v = Ok c -> process_dependencies compat t' v' = Ok c' ->
+  tree_wf t -> tree_wf t' -> path_ok p c -> path_ok p c' ->
+  chart_agree eq eq p c c' -> agree eq p v v' ->
+  values_seen compat t v p = Some x -> values_seen compat t' v' p = Some x' -> x = x'.
+Proof. exact values_seen_isolated. Qed.
+Print Assumptions C11_values_seen_isolated.
+
+(* (b) Globals flow down with the ancestor winning, at any depth: a plain global.g = x in the
+   user's values is what the chart at ANY path sees under global.g, whatever the defaults of the
+   charts on the way (or its own) say - in the cases in which the code passes globals on at all
+   ([globals_pass]: no section on the way holds a non-table "global" or a table at global.g). *)
+Theorem C11_global_reaches_any_depth : forall compat t v c p g x r,
+  process_dependencies compat t v = Ok c ->
+  tree_wf t -> path_ok p c -> wfm v ->
+  (exists gm, mget global_key v = Some (VMap gm) /\ mget g gm = Some x) ->
+  (is_table x = false /\ is_null x = false) ->
+  globals_pass false g c v p ->
+  (forall P, chart_at c p = Some P -> ~ In global_key (map cname (cdeps P))) ->
+  values_seen compat t v p = Some r ->
+  exists gm, mget global_key r = Some (VMap gm) /\ mget g gm = Some x.
+Proof. exact values_seen_global. Qed.
+Print Assumptions C11_global_reaches_any_depth.
+
+(* ... and the same from any chart on the way: what its effective values (own defaults included)
+   hold under global.g is handed to every chart below it. *)
+Theorem C11_global_from_ancestor : forall n p c dest g x P X,
+  path_ok (n :: p) c -> defaults_wf (n :: p) c -> wfm dest ->
+  (is_table x = false /\ is_null x = false) ->
+  holds_global g x (coalesce_values false (map cname (cdeps c)) (cvalues c) dest) ->
+  globals_pass false g c dest (n :: p) ->
+  handed false c dest (n :: p) = Some (P, X) -> holds_global g x X.
+Proof. exact global_from_ancestor. Qed.
+Print Assumptions C11_global_from_ancestor.
+
+(* (c) One subchart's values never change what the parent or a sibling sees.  Two runs that, at
+   the chart at path q, differ only in the subchart called n (its defaults, its whole subtree,
+   the parent's defaults under the key n, the user's section under n - [except_child],
+   [except_key]): the parent's .Values agree on every key but n ... *)
+Theorem C11_parent_view_confined : forall compat t t' v v' c c' q n x x',
+  process_dependencies compat t v = Ok c -> process_dependencies compat t' v' = Ok c' ->
+  tree_wf t -> tree_wf t' -> n <> global_key -> path_ok q c -> path_ok q c' ->
+  chart_agree (except_key n) (except_child n) q c c' -> agree (except_key n) q v v' ->
+  values_seen compat t v q = Some x -> values_seen compat t' v' q = Some x' ->
+  forall k, k <> n -> mget k x = mget k x'.
+Proof. exact values_seen_parent_confined. Qed.
+Print Assumptions C11_parent_view_confined.
+
+(* ... and every sibling s sees exactly the same. *)
+Theorem C11_sibling_view_unchanged : forall compat t t' v v' c c' q n s x x',
+  process_dependencies compat t v = Ok c -> process_dependencies compat t' v' = Ok c' ->
+  tree_wf t -> tree_wf t' -> s <> n -> n <> global_key ->
+  path_ok (q ++ [s]) c -> path_ok (q ++ [s]) c' ->
+  chart_agree (except_key n) (except_child n) q c c' -> agree (except_key n) q v v' ->
+  values_seen compat t v (q ++ [s]) = Some x -> values_seen compat t' v' (q ++ [s]) = Some x' -> x = x'.
+Proof. exact values_seen_sibling_unchanged. Qed.
+Print Assumptions C11_sibling_view_unchanged.
+
+(* K-C11-1 as a refuted statement: without "no dots in the names on the path" the closed form
+   fails - the subchart my.sub sees an empty .Values although its coalesce holds x = 1. *)
+Theorem C11_dotted_name_refuted :
+  exists c v, (NoDup (map cname (cdeps c)) /\ ~ In global_key (map cname (cdeps c)))
+    /\ seen_after c v ["my.sub"] = Some []
+    /\ exists P X x, handed false c v ["my.sub"] = Some (P, X) /\ coalesce false P X = Ok x
+                     /\ mget "x" x = Some (VNum 1).
+Proof. exact dotted_name_refuted. Qed.
+Print Assumptions C11_dotted_name_refuted.
+
+(* Non-vacuity at depth three: two runs that differ in the root's defaults, in a second-level
+   sibling's defaults and in the user's values for that sibling and for other keys; a user global
+   beats the leaf's own default. *)
+Example C11_values_seen_example :
+  let p := ["suba"; "gca"; "leaf"] in
+  match process_dependencies (fun _ _ => true) (sx_top 1) (sx_user 1),
+        process_dependencies (fun _ _ => true) (sx_top 2) (sx_user 2) with
+  | Ok c, Ok c' =>
+      path_ok p c /\ path_ok p c' /\ tree_wf (sx_top 1) /\ tree_wf (sx_top 2)
+      /\ chart_agree eq eq p c c' /\ agree eq p (sx_user 1) (sx_user 2) /\ sx_user 1 <> sx_user 2 /\ c <> c'
+      /\ wfm (sx_user 1) /\ globals_pass false "g" c (sx_user 1) p
+      /\ values_seen (fun _ _ => true) (sx_top 1) (sx_user 1) p
+         = Some [("u", VNum 5); ("global", VMap [("g", VNum 7)]); ("z", VNum 1)]
+      /\ values_seen (fun _ _ => true) (sx_top 2) (sx_user 2) p
+         = Some [("u", VNum 5); ("global", VMap [("g", VNum 7)]); ("z", VNum 1)]
+  | _, _ => False
+  end.
+Proof. exact seen_example. Qed.
+Print Assumptions C11_values_seen_example.
+
+(* ---------- import-values ---------- *)
+
+(* processImportValues on one chart with requirement records [reqs]: its new values are its
+   effective defaults (own and subcharts', MergeValues without user values) with, BELOW them, the
+   tables of all import entries of all kept records merged in order, earlier ones authoritative. *)
+Theorem C11_import_values_closed : forall c c' reqs,
+  cmdeps c = Some reqs -> process_import_values c = Ok c' ->
+  exists cvals, MergeValues c [] = Ok cvals
+    /\ cvalues c' = merge_tables cvals (merge_imports (import_tables cvals (import_entries reqs)))
+    /\ cdeps c' = cdeps c /\ cmdeps c' = cmdeps c /\ cname c' = cname c.
+Proof. exact piv_closed. Qed.
+Print Assumptions C11_import_values_closed.
+
+(* the {child, parent} form lands exactly at the named parent path: the contributed table is one
+   chain of keys, the parent path, with the child's table at its end (the string form [IStr s]
+   contributes the table exports.s itself, see [import_table]) *)
+Theorem C11_import_lands_at_parent_path : forall parent vv,
+  parent <> "." ->
+  table_at (split_dot parent) (path_to_map parent vv) = Some vv
+  /\ forall k, mget k (path_to_map parent vv) <> None -> k = hd "" (split_dot parent).
+Proof. exact import_lands. Qed.
+Print Assumptions C11_import_lands_at_parent_path.
+
+(* one level, for every chart: (1) the chart's own effective values win over imported ones at
+   every path; (2) a key that no contributed table has is unchanged - imports reach nothing but
+   their landing keys; (3) under a key the chart did not have, the first contributed table with
+   that key shows through (order of imports) *)
+Theorem C11_import_values_level : forall c c' reqs,
+  tree_wf c -> cmdeps c = Some reqs -> process_import_values c = Ok c' ->
+  exists cvals,
+    MergeValues c [] = Ok cvals
+    /\ let ts := import_tables cvals (import_entries reqs) in
+       (forall p x, p <> [] -> lookup_path p (VMap cvals) = Some x -> is_table x = false ->
+                    lookup_path p (VMap (cvalues c')) = Some x)
+       /\ (forall k, (forall t, In t ts -> mget k t = None) -> mget k (cvalues c') = mget k cvals)
+       /\ (forall pre t post k p x,
+             ts = (pre ++ t :: post)%list -> (forall u, In u pre -> mget k u = None) -> mget k cvals = None ->
+             lookup_path (k :: p) (VMap t) = Some x -> is_table x = false ->
+             lookup_path (k :: p) (VMap (cvalues c')) = Some x).
+Proof. exact import_values_level. Qed.
+Print Assumptions C11_import_values_level.
+
+(* user-supplied values win over imported ones (and over every other chart value), at any depth:
+   a plain value the user wrote at path p ++ k :: q is what the chart at p sees at k :: q, when
+   k is not a subchart of that chart (and not "global" below the root: there the ancestor wins) *)
+Theorem C11_user_wins_over_imported : forall compat t v c p k q x r,
+  process_dependencies compat t v = Ok c -> path_ok p c ->
+  lookup_path (p ++ k :: q)%list (VMap v) = Some x ->
+  (is_table x = false /\ is_null x = false) ->
+  (p <> [] -> k <> global_key) ->
+  (forall P, chart_at c p = Some P -> ~ In k (map cname (cdeps P))) ->
+  values_seen compat t v p = Some r -> lookup_path (k :: q) (VMap r) = Some x.
+Proof. exact values_seen_user_wins. Qed.
+Print Assumptions C11_user_wins_over_imported.
+
+(* imports never leak into a sibling: whatever table b is put below a chart's values, if b has
+   neither the sibling's key nor "global", the sibling sees the same *)
+Theorem C11_import_not_in_sibling : forall c b s user x x',
+  mget s b = None -> mget global_key b = None ->
+  path_ok [s] c -> wfm (cvalues c) -> wfm b ->
+  seen_after c user [s] = Some x ->
+  seen_after (set_values c (merge_tables (cvalues c) b)) user [s] = Some x' ->
+  x = x'.
+Proof. exact import_not_in_sibling. Qed.
+Print Assumptions C11_import_not_in_sibling.
+
+(* a disabled dependency imports nothing: no import entry processed afterwards belongs to a
+   requirement that processDependencyEnabled disabled, and no chart carries its name (so its
+   defaults are not among the values imports are read from) *)
+Theorem C11_disabled_imports_nothing : forall compat c v path c',
+  pde compat c v path = Ok c' ->
+  exists cvals,
+    CoalesceValues (set_deps c (map fst (resolved_kids compat (kids_of compat c) (mdeps_list c)))) v = Ok cvals
+    /\ forall r, In r (resolved_reqs (mdeps_list c)) -> enabled_spec cvals path r = false ->
+         (forall e, In e (import_entries (mdeps_list c')) -> fst e <> dname r)
+         /\ ~ In (dname r) (map cname (cdeps c')).
+Proof. exact disabled_imports_nothing. Qed.
+Print Assumptions C11_disabled_imports_nothing.
+
+Example C11_import_example :
+  match process_dependencies (fun _ _ => true) ix_top [("data", VMap [("fromB", VNum 7)])] with
+  | Ok c' =>
+      lookup_path ["data"; "fromA"] (VMap (cvalues c')) = Some (VNum 9)
+      /\ lookup_path ["data"; "fromB"] (VMap (cvalues c')) = Some (VNum 2)
+      /\ lookup_path ["imported"; "x"; "k"] (VMap (cvalues c')) = Some (VNum 3)
+      /\ lookup_path ["suba"; "exports"; "one"; "data"; "fromB"] (VMap (cvalues c')) = None
+      /\ match CoalesceValues c' [("data", VMap [("fromB", VNum 7)])] with
+         | Ok r => lookup_path ["data"; "fromB"] (VMap r) = Some (VNum 7)
+         | Err _ => False
+         end
+  | Err _ => False
+  end.
+Proof. exact import_example. Qed.
+Print Assumptions C11_import_example.
+
+(* ---------- the enablement decision over the whole tree ---------- *)
+
+(* processDependencyEnabled on a whole tree, as ONE statement: a chain q of subcharts (names =
+   alias, else name) is left in the result iff [enabled_path]: at every link the dependency is
+   offered by its parent after alias resolution and every requirement record carrying its name is
+   [enabled_spec] - the first condition path that resolves to a boolean decides, otherwise it is
+   disabled exactly when some of its tags is false and none is true - evaluated in the parent's
+   effective values (the parent's defaults and those of its offered subcharts coalesced under the
+   effective values of ITS parent; the user's values at the root), conditions looked up below the
+   path prefix of the parent. *)
+Theorem C11_enabled_tree : forall compat q c v path c',
+  pde compat c v path = Ok c' -> (has_path c' q <-> enabled_path compat c v path q).
+Proof. exact enabled_tree. Qed.
+Print Assumptions C11_enabled_tree.
+
+(* the same for ProcessDependencies as a whole (import-values keeps the set of chains) *)
+Theorem C11_process_dependencies_tree : forall compat c v c'',
+  process_dependencies compat c v = Ok c'' ->
+  forall q, has_path c'' q <-> enabled_path compat c v "" q.
+Proof. exact process_dependencies_tree. Qed.
+Print Assumptions C11_process_dependencies_tree.
+
+(* a dependency at any depth contributes templates / CRDs iff it and every ancestor dependency is
+   enabled: a template path is rendered, a CRD file is sent, iff it belongs to the chart at the
+   end of a chain on which every link is enabled (defaults and schema checks walk the same
+   dependency lists of the same processed tree) *)
+Theorem C11_contributes_iff_enabled : forall compat c v c'',
+  process_dependencies compat c v = Ok c'' ->
+  (forall vals path,
+     (exists y, In (path, y) (rec_all_tpls c'' true "" vals)) <->
+     exists q e t, enabled_path compat c v "" q /\ chain c'' q e /\ In t (ctemplates e)
+                   /\ path = dir_of (cname c'') q ++ "/" ++ t)
+  /\ (forall o,
+     In o (crd_objects c'' true "") <->
+     exists q e f, enabled_path compat c v "" q /\ chain c'' q e /\ In f (ccrds e)
+                   /\ o = (f, dir_of (cname c'') q ++ "/" ++ f)).
+Proof. exact contributes_iff_enabled. Qed.
+Print Assumptions C11_contributes_iff_enabled.
+
+(* Non-vacuity: depth three, aliases at two levels (a1/a2 of suba, g1 of gca, l1 of leaf), a
+   condition resolved by the alias-level chart's own defaults (l1.on), a chain cut at its second
+   link by the user's a2.g1.enabled=false although the tag says true. *)
+Example C11_enabled_tree_example :
+  enabled_path (fun _ _ => true) ex_top ex_user "" ["a1"; "g1"; "l1"]
+  /\ enabled_path (fun _ _ => true) ex_top ex_user "" ["a2"]
+  /\ ~ enabled_path (fun _ _ => true) ex_top ex_user "" ["a2"; "g1"].
+Proof. exact enabled_tree_example. Qed.
+Print Assumptions C11_enabled_tree_example.
